@@ -106,6 +106,7 @@ pub fn gen_c12(rng: &mut Rng, d: &mut Dist, _idx: u64) -> Vec<String> {
     }
     out.push(format!("OP producer_create hosts={}{}", cl.bootstrap(), opts));
     let mut uniq = 0u32;
+    let mut key_pool: Vec<Vec<u8>> = Vec::new();
     let nsend = 1 + rng.below(4);
     // a topic that appears on the cluster after the producer was built: the producer's client may load it, the partitioner's
     // view of the topics is the one taken at creation - records for it without a partition stay unassigned and are rejected
@@ -142,9 +143,18 @@ pub fn gen_c12(rng: &mut Rng, d: &mut Dist, _idx: u64) -> Vec<String> {
                 (p, k)
             } else if kind < 6 {
                 bump(d, "keyed");
-                let lens = [1usize, 2, 3, 4, 5, 15, 16, 17, 31, 32, 33, 100, 1000];
-                let l = *rng.pick(&lens);
-                (-1, key_of_len(rng, l))
+                // the same key turns up again - for the same topic, for another one with another partition count: its
+                // partition is a function of the key and that count alone, whatever was sent before
+                if !key_pool.is_empty() && rng.chance(1, 3) {
+                    bump(d, "key-used-before");
+                    (-1, rng.pick(&key_pool[..]).clone())
+                } else {
+                    let lens = [1usize, 2, 3, 4, 5, 15, 16, 17, 31, 32, 33, 63, 64, 65, 100, 1000];
+                    let l = *rng.pick(&lens);
+                    let k = key_of_len(rng, l);
+                    key_pool.push(k.clone());
+                    (-1, k)
+                }
             } else {
                 bump(d, "keyless");
                 (-1, vec![])
@@ -592,6 +602,8 @@ pub fn gen_c10(rng: &mut Rng, d: &mut Dist, idx: u64) -> Vec<String> {
     bump(d, &format!("brokers-{}", cl.brokers.len()));
     out.push(format!("OP client_new {}", cl.bootstrap()));
     out.push(format!("OP c set storage {}", rng.pick(&["zk", "kafka"])));
+    out.push("OP c set retry_backoff_ms 0".into());
+    out.push("OP c set retry_max 4".into());
     out.push("OP c load_metadata_all".into());
     out.push("OP c topics".into());
     let names: Vec<String> = cl.topics.iter().map(|t| t.name.clone()).collect();
@@ -613,6 +625,13 @@ pub fn gen_c10(rng: &mut Rng, d: &mut Dist, idx: u64) -> Vec<String> {
             }
             2 => {
                 bump(d, "op-fetch_group_offsets");
+                // now and then the coordinator answers one partition (any position in its reply) with a retriable code once
+                // or twice before the clean reply: the call returns the clean reply's content, nothing of the others
+                if rng.chance(1, 3) {
+                    bump(d, "group-fetch-retried");
+                    let t = rng.pick(&cl.topics);
+                    out.push(format!("FAULT 9 {} {} {} {}", h(&t.name), rng.below(t.leaders.len() as u64), rng.pick(&[14i64, 16]), 1 + rng.below(2)));
+                }
                 let mut line = format!("OP c fetch_group_offsets {}", h("grp"));
                 for _ in 0..(1 + rng.below(5)) {
                     let t = rng.pick(&cl.topics);
@@ -1224,6 +1243,19 @@ pub fn gen_c16(rng: &mut Rng, d: &mut Dist, _idx: u64) -> Vec<String> {
         }
         out.push("OP c get_config".into());
         out.push("OP c load_metadata_all".into());
+        // the retry limit in behaviour: a coordinator that keeps answering with retriable codes, in any mix
+        if rng.chance(1, 3) {
+            bump(d, "retry-limit-in-behaviour");
+            let api = *rng.pick(&[8i64, 9]);
+            let codes: Vec<String> = (0..(1 + rng.below(7))).map(|_| rng.pick(&[14i64, 16, 16]).to_string()).collect();
+            out.push(format!("SCRIPT {} {}", api, codes.join(" ")));
+            if api == 8 {
+                out.push(format!("OP c commit_offsets {} {} 0 1", h("grp"), h(&t.name)));
+            } else {
+                out.push(format!("OP c fetch_group_offsets {} {} 0", h("grp"), h(&t.name)));
+            }
+            out.push(format!("SCRIPT {}", api));
+        }
     }
     let consumer = rng.chance(1, 2);
     if consumer {
@@ -1369,6 +1401,21 @@ pub fn gen_c07(rng: &mut Rng, d: &mut Dist, _idx: u64) -> Vec<String> {
         }
         out.push("OP c load_metadata_all".into());
         from = "client".to_string();
+        // the look-up of the group's offsets does not go through at once: retriable answers (within the retry limit) must end
+        // at the committed offsets all the same, an answer that is final must fail the creation
+        if group && rng.chance(1, 2) {
+            out.push("OP c set retry_backoff_ms 0".into());
+            out.push("OP c set retry_max 4".into());
+            let k = 1 + rng.below(2);
+            let mut codes: Vec<String> = (0..k).map(|_| rng.pick(&[14i64, 16]).to_string()).collect();
+            if rng.chance(1, 3) {
+                bump(d, "offset-look-up-fails-for-good");
+                codes.push(rng.pick(&[30i64, 29, 15, 2]).to_string());
+            } else {
+                bump(d, "offset-look-up-retried");
+            }
+            out.push(format!("SCRIPT 9 {}", codes.join(" ")));
+        }
     }
     rng.shuffle(&mut opts);
     out.push(format!("OP consumer_create {} {}", from, opts.join(" ")));
@@ -1906,7 +1953,20 @@ pub fn gen_c02(rng: &mut Rng, d: &mut Dist, idx: u64) -> Vec<String> {
     }
     out.push("OP c load_metadata_all".into());
     let nf = 1 + rng.below(4);
-    for _ in 0..nf {
+    // now and then one of the calls fails on the wire (a broker's reply is lost, a request cannot be written): the calls after
+    // it - same brokers, other offsets - must expose what was sent for *them*
+    let fail_at = if rng.chance(1, 4) { Some(rng.below(nf)) } else { None };
+    for call_no in 0..nf {
+        if fail_at == Some(call_no) {
+            bump(d, "a-call-fails-on-the-wire");
+            out.push(format!("H {} {}", rng.pick(&["fail_recv", "fail_send"]), rng.below(2)));
+            let mut line = String::from("OP c fetch_messages");
+            for (t, p, _, _) in &sizes {
+                line.push_str(&format!(" {} {} 0 -1", h(t), p));
+            }
+            out.push(line);
+            out.push("H clear_faults".into());
+        }
         let mut line = String::from("OP c fetch_messages");
         for (t, p, end, bytes) in &sizes {
             if rng.chance(1, 5) {
@@ -2053,6 +2113,39 @@ pub fn gen_c04(rng: &mut Rng, d: &mut Dist, idx: u64) -> Vec<String> {
         let p = 12 * 8 + rng.below(((w.len() - 12) * 8) as u64) as usize;
         w[p / 8] ^= 1 << (p % 8);
         out.push(format!("APPENDRAW {} 0 {} {} {}", h(&t.name), n, n, hex(&w)));
+    }
+    // a reply covering several partitions, one of them answered with an error code, listed before or after the partition
+    // that holds the corrupted message (the checksum of every message of the reply counts, whatever came before it)
+    if rng.chance(1, 4) {
+        bump(d, "reply-with-a-failed-partition-next-to-the-corrupted-one");
+        let on = rng.chance(3, 4);
+        bump(d, if on { "validation-on" } else { "validation-off" });
+        let other = h("zz-other");
+        out.push(format!("TOPIC {} 2", other));
+        out.push(format!("LEADER {} 0 {}", other, cl.brokers[0].0));
+        out.push(format!("LEADER {} 1 {}", other, cl.brokers[0].0));
+        out.push(format!("APPEND {} 0 plain 0 ~ aa", other));
+        // the victim's topic has one partition led by some broker; make everything live on the first broker
+        out.push(format!("LEADER {} 0 {}", h(&t.name), cl.brokers[0].0));
+        if rng.chance(1, 2) {
+            out.push(format!("ORDER {}", rng.pick(&["rev", "rot 1"])));
+        }
+        out.push(format!("OP client_new {}", cl.bootstrap()));
+        out.push(format!("OP c set crc {}", if on { 1 } else { 0 }));
+        out.push("OP c load_metadata_all".into());
+        // an error code on one of the other partitions: injected, or earned by asking beyond the log end
+        let code = *rng.pick(&[1i64, 6, 3, 9]);
+        let mut parts = vec![
+            format!("{} 0 0 -1", h(&t.name)),
+            if rng.chance(1, 2) { format!("{} 0 99 -1", other) } else { format!("{} 0 0 -1", other) },
+            format!("{} 1 0 -1", other),
+        ];
+        if rng.chance(1, 2) {
+            out.push(format!("FAULT 1 {} {} {} 1", other, rng.below(2), code));
+        }
+        rng.shuffle(&mut parts);
+        out.push(format!("OP c fetch_messages {}", parts.join(" ")));
+        return out;
     }
     // a third of the cases fetch through a consumer: the setting comes from the builder (whatever the handed-in client
     // says), from the handed-in client, or is the default
@@ -2339,8 +2432,14 @@ pub fn gen_c17(rng: &mut Rng, d: &mut Dist, _idx: u64) -> Vec<String> {
         format!("BROKER 1 {} 9092", h("b1")),
         format!("TOPIC {} {}", h("t"), np),
     ];
+    // the partitions may sit on one broker, or the one with the large entry alone on its own broker (one reply per broker)
+    let two = multi && rng.chance(1, 2);
+    if two {
+        bump(d, "two-brokers");
+        out.insert(1, format!("BROKER 2 {} 9092", h("b2")));
+    }
     for p in 0..np {
-        out.push(format!("LEADER {} {} 1", h("t"), p));
+        out.push(format!("LEADER {} {} {}", h("t"), p, if two && p > 0 { 2 } else { 1 }));
     }
     let base: i64 = *rng.pick(&[64i64, 100, 256]);
     // the victim partition 0: small messages and one large entry
